@@ -500,11 +500,16 @@ void Engine::run() {
 		}
 		if (r == 0 && se.getb("start_again", false)) {
 			// start while running must do nothing
-			size_t w = bus.wire.size(); int tc = sim::task_count();
-			int r2;
-			{ sim::ApiScope api("bidib_start_pointer"); r2 = bidib_start_pointer(cb_read, cb_write, cfgdir.empty() ? nullptr : cfgdir.c_str(), (unsigned) se["start"].geti("flush_ms", 0)); }
-			if (bus.wire.size() != w || sim::task_count() != tc)
-				violate("START_WHILE_RUNNING_ACTED", "bidib_start", "a second start while running sent messages or created threads (returned " + std::to_string(r2) + ")");
+			// (variants: 1 valid arguments, 2 no configuration directory, 3 / 4 no read / write callback, 5 serial start without a device name)
+			size_t w = bus.wire.size(); int tc = sim::task_count(); size_t te = sim::thread_events().size();
+			int r2, variant = (int) se.geti("start_again_variant", 1);
+			const char *dir = cfgdir.empty() ? nullptr : cfgdir.c_str();
+			unsigned fl = (unsigned) se["start"].geti("flush_ms", 0);
+			if (variant == 5) { sim::ApiScope api("bidib_start_serial"); r2 = bidib_start_serial(nullptr, dir, fl); }
+			else { sim::ApiScope api("bidib_start_pointer"); r2 = bidib_start_pointer(variant == 3 ? nullptr : cb_read, variant == 4 ? nullptr : cb_write, variant == 2 ? nullptr : dir, fl); }
+			{ sim::ApiScope api("bidib_flush"); bidib_flush(); }
+			if (bus.wire.size() != w || sim::task_count() != tc || sim::thread_events().size() != te)
+				violate("START_WHILE_RUNNING_ACTED", "bidib_start", "a second start (argument variant " + std::to_string(variant) + ") while a session is running sent messages, created or joined threads (returned " + std::to_string(r2) + ")");
 		}
 		if (se.getb("stop", true)) {
 			if (prop) prop->before_stop(*this, (int) s);
